@@ -629,24 +629,29 @@ def readCdata (t : Tokenizer) : Tokenizer × Bool :=
   if !l.2 then (l.1, false)
   else (cdataGo { l.1 with dataS := l.1.rawE } 0, true)
 
-/-- `read_markup_declaration` -/
-def readMarkupDeclaration (t : Tokenizer) : Tokenizer × TokenType :=
-  let t0 := { t with dataS := t.rawE }
-  let r1 := t0.readByte
+/-- `read_markup_declaration`, after `self.raw.end -= 2`: doctype, CDATA or bogus comment -/
+def markupRest (t : Tokenizer) : Tokenizer × TokenType :=
+  let d := t.readDocType
+  if d.2 then (d.1, .doctype)
+  else if d.1.allowCdata then
+    let c := d.1.readCdata
+    if c.2 then ({ c.1 with convertNull := true }, .text)
+    else (c.1.readUntilCloseAngle, .comment)
+  else (d.1.readUntilCloseAngle, .comment)
+
+/-- `read_markup_declaration`, after `self.data.start = self.raw.end` -/
+def markupGo (t : Tokenizer) : Tokenizer × TokenType :=
+  let r1 := t.readByte
   if r1.1.err then ({ r1.1 with dataE := r1.1.rawE }, .comment)
   else
     let r2 := r1.1.readByte
     if r2.1.err then ({ r2.1 with dataE := r2.1.rawE }, .comment)
     else if r1.2 == 45 && r2.2 == 45 then (r2.1.readComment, .comment)
-    else
-      let t3 := r2.1.unread 2
-      let d := t3.readDocType
-      if d.2 then (d.1, .doctype)
-      else if d.1.allowCdata then
-        let c := d.1.readCdata
-        if c.2 then ({ c.1 with convertNull := true }, .text)
-        else (c.1.readUntilCloseAngle, .comment)
-      else (d.1.readUntilCloseAngle, .comment)
+    else markupRest (r2.1.unread 2)
+
+/-- `read_markup_declaration` -/
+def readMarkupDeclaration (t : Tokenizer) : Tokenizer × TokenType :=
+  markupGo { t with dataS := t.rawE }
 
 /-! ### tags -/
 
